@@ -26,9 +26,11 @@ def cubes(tier, has_fc):
             for g in ('contents', 'resolve_dependency', 'try_get'):
                 out.append({'N': N, 'D': D, 'I': I, 'kind': kind, 'group': g})
             # two symbolic validations plus the segment construction: one size smaller than the other groups
+            # (N=3,D=1,I=1 did not finish in 1500 s per query: the thorough tier widens D at N=2 and drops the import map at N=3 instead)
+            vsize = (N - 1, 1, I) if tier == 'quick' else ((2, 2, 1) if N == 3 else (3, 1, 0))
             for fd in (False, True):
                 for cj in ([0] if kind == 1 else [0, 1, 2]):
-                    out.append({'N': N - 1, 'D': 1, 'I': I, 'kind': kind, 'group': 'validate', 'fd': fd, 'cj': cj})
+                    out.append({'N': vsize[0], 'D': vsize[1], 'I': vsize[2], 'kind': kind, 'group': 'validate', 'fd': fd, 'cj': cj})
     return out
 
 def cube_name(c): return f"N{c['N']}D{c['D']}I{c['I']}_g{c['kind']}_{c['group']}" + (f"_fd{int(c['fd'])}_cj{c['cj']}" if 'fd' in c else '')
